@@ -25,7 +25,9 @@ EXPLANATION = (
     'R-C10.5 every comparison against an UpgradeMethod member is by value (==, !=, in), never by identity: stored signatures come back with equal, not identical, strings; '
     'R-C10.6 the container recorded up front receives no plan-derived targets (or is a snapshot / restored); R-C10.7 to_mark_applied is published whether or not a migration is pending; R-C10.8 the batch builder simulates pending mutations on the real signature under no condition but their existence (the earlier `if migrating:` clause of R-C10.3/.4 was dropped as not necessary).'
     ' '
-    'R-C10.9 no mutation constructor replaces a falsy argument by a non-empty default (`param or [...]`): an explicitly empty mark_applied is honoured.')
+    'R-C10.9 no mutation constructor replaces a falsy argument by a non-empty default (`param or [...]`): an explicitly empty mark_applied is honoured.'
+    ' '
+    'R-C10.10 the full migration plan reaches execute_tasks without a truthiness collapse (`x or None`) while the consumer tests `is not None`.')
 NOT_DECIDED = (
     'Which migrations are recorded/executed for every start state (depends '
     'on Django\'s loader/executor and on the database).')
@@ -591,7 +593,57 @@ def r9_explicit_empty_honoured(ctx):
                'non-empty default')
 
 
+def r10_empty_plan_is_not_no_plan(ctx):
+    """execute_tasks() decides `migrating` by `full_migration_plan is not
+    None`: an *empty* plan means "nothing left to execute, but the
+    migrations MoveToDjangoMigrations marked still have to be recorded".
+    The value stored under 'full_migration_plan' must therefore reach the
+    consumer without a truthiness collapse (`x or None`)."""
+    ctx.rule('R-C10.10')
+    p = ctx.program
+    cons = p.func(TASK, 'EvolveAppTask.execute_tasks')
+    by_identity = any(
+        isinstance(c, ast.Compare) and
+        isinstance(c.ops[0], (ast.Is, ast.IsNot)) and
+        'full_migration_plan' in unparse(c.left)
+        for c in walk_no_nested(cons.node))
+    n = 0
+    for q in ('EvolveAppTask.prepare_tasks',
+              'EvolveAppTask._build_migrations_info'):
+        f = p.func(TASK, q)
+        for d in walk_no_nested(f.node):
+            if not isinstance(d, ast.Dict):
+                continue
+            for k, v in zip(d.keys, d.values):
+                if const_str(k) not in ('full_migration_plan', 'full_plan'):
+                    continue
+                n += 1
+                collapse = any(
+                    isinstance(x, ast.BoolOp) and isinstance(x.op, ast.Or)
+                    and isinstance(x.values[-1], ast.Constant) and
+                    x.values[-1].value is None for x in ast.walk(v)) or any(
+                    isinstance(x, ast.IfExp) and
+                    isinstance(x.orelse, ast.Constant) and
+                    x.orelse.value is None for x in ast.walk(v))
+                if collapse and by_identity:
+                    ctx.finding(f, v, '%s stores %s under %r, but '
+                                'execute_tasks tests the plan with `is not '
+                                'None`: an empty plan (everything covered by '
+                                'mark_applied) no longer counts as '
+                                'migrating, so the marked migrations are '
+                                'never recorded and the signature is never '
+                                'synchronised with django_migrations' % (
+                                    f.qualname,
+                                    ' '.join(unparse(v).split()),
+                                    const_str(k)),
+                                key='empty-plan-collapsed')
+                else:
+                    ctx.ok(f, 'the full plan is handed on as it is', v)
+    ctx.floor('producers of the full migration plan entry', n, 1)
+
+
 def run(ctx):
+    r10_empty_plan_is_not_no_plan(ctx)
     r9_explicit_empty_honoured(ctx)
     r8_batch_simulation_unconditional(ctx)
     r7_applied_list_always_published(ctx)
